@@ -264,7 +264,7 @@ def check_pattern(ctx, rng):
     expect = rng.choice(good)
     min_mode, min_length = None, 0
     if accept_any:
-        cfg['accept_any'] = True
+        cfg['accept_nonempty' if rng.random() < 0.4 else 'accept_any'] = True
         if rng.random() < 0.5:
             # minimums configured as well, announced differently: a pattern mismatch is still refused the explain_validation way
             min_length = rng.randint(1, 6)
@@ -303,9 +303,10 @@ def check_pattern(ctx, rng):
         key = 'C18:pattern:partial_match_accepted:' + kind if partial else 'C18:pattern:nonmatch_not_refused'
         check_refused(ctx, out, mode, r'BAD FORMAT', key + (':accept_any' if accept_any else ':answers'), wit, cfg.get('wrong_msg', ''))
         return
-    if accept_any and len(cs) < min_length:
+    eff_min = max(min_length, 1) if cfg.get('accept_nonempty') else min_length      # accept_nonempty: at least one character
+    if accept_any and len(cs) < eff_min:
         ctx.count('minimum_refused')
-        check_refused(ctx, out, min_mode, r'too short', 'C18:pattern:matching_but_too_short', wit, cfg.get('wrong_msg', ''))
+        check_refused(ctx, out, cfg.get('explain_minimums', 'err'), r'too short', 'C18:pattern:matching_but_too_short', wit, cfg.get('wrong_msg', ''))
         return
     # matches the whole cleaned text: must be graded normally
     want = True if accept_any else (cs == ref_clean(expect, **flags))
